@@ -160,6 +160,7 @@ let cmd_parse ?(brief=false) file fuel =
         | PFuel -> "FUEL" in
       match r.r_out with
       | PPanic _ -> "PANIC"
+      | PFuel -> "FUEL"     (* out of fuel (a parser resolved with -a may loop): the log is not printed, its trees grow with the fuel *)
       | _ ->
         head ^ " LOG" ^ String.concat "" (List.map (fun (p, kids) ->
           Printf.sprintf " [%d%s]" (int_of_nat p) (show_list kids)) r.r_log)
